@@ -4,7 +4,7 @@
     driver, and freshness TABLE BY TABLE for listings that are not uniform. *)
 From Coq Require Import Ascii String List Bool Arith ZArith NArith Lia ZifyBool.
 From PTBase Require Import Exn PyStr.
-From P Require Import ListingNav.
+From P Require Import ListingNav Round.
 Import ListNotations.
 Open Scope Z_scope.
 
@@ -260,3 +260,13 @@ Example L_ex_run :
     [ONone; OBool true; ONone; ONone; ONone; OBool true; OExn IndexError; ONone; OBool false; ONone; ONone] /\
   map (fun p => idx (snd p)) (trace (fun z => z) L_ex (open L_ex) ops_ex) = [1; 2; 2; 0; 2; 1; 1; 2; 2; 2; 0].
 Proof. vm_compute. repeat split. Qed.
+
+(** ** the two rounding-parametric theorems at the rounding the driver runs with (float64) *)
+Lemma set_time_nearest_round53 L : lsets L <> [] -> forall s t, sorted_le (times L) ->
+  exists s', step round53 L s (SetTime t) = (s', ONone) /\ 0 <= idx s' < nsets L /\
+    nth_error (times L) (Z.to_nat (idx s')) = Some (tm s') /\
+    forall j x, nth_error (times L) j = Some x -> round53 (Z.abs (tm s' - t)) <= round53 (Z.abs (x - t)).
+Proof. exact (ListingNav.set_time_nearest round53 round53_mono L). Qed.
+Lemma set_time_exact_round53 L s t j : sorted_lt (times L) -> nth_error (times L) j = Some t ->
+  exists s', step round53 L s (SetTime t) = (s', ONone) /\ idx s' = Z.of_nat j.
+Proof. exact (set_time_exact round53 L s t j round53_mono round53_zero round53_pos). Qed.
